@@ -27,3 +27,68 @@ def src_files(sub="src"):
         for f in files:
             if f.endswith(".rs"):
                 yield os.path.join(root, f)
+
+
+def _enum_variants(path, enum_name):
+    from . import extract as X
+    src = C.read(os.path.join(C.REPO, path))
+    m = X.mask(src)
+    mm = re.search(r"\benum\s+" + enum_name + r"\b[^{;]*\{", m)
+    if not mm:
+        return None
+    ob = mm.end() - 1
+    cb = X.match_brace(m, ob)
+    body = m[ob + 1:cb]
+    # top-level variant names
+    names, depth = [], 0
+    for tok in re.finditer(r"[{}()\[\]]|\b([A-Z][A-Za-z0-9_]*)\b", body):
+        t = tok.group(0)
+        if t in "{([":
+            depth += 1
+        elif t in "})]":
+            depth -= 1
+        elif depth == 0 and tok.group(1):
+            pre = body[:tok.start()].rstrip()
+            if pre == "" or pre.endswith(",") or pre.endswith("]"):
+                names.append(tok.group(1))
+    return names
+
+
+@scan("expr_variants")
+def expr_variants():
+    """The node-kind enumeration the induction relies on: every Expr / container::Variant /
+    Opcode variant is one this framework has a unit (or a leaf argument) for."""
+    want = {
+        ("src/compiler/expression.rs", "Expr"): ["Literal", "Container", "IfStatement", "Op", "Assignment", "Query", "FunctionCall",
+                                                  "Variable", "Noop", "Unary", "Abort", "Return"],
+        ("src/compiler/expression/container.rs", "Variant"): ["Group", "Block", "Array", "Object"],
+        ("src/compiler/expression/unary.rs", "Variant"): ["Not"],
+        ("src/parser/ast.rs", "Opcode"): ["Mul", "Div", "Add", "Sub", "Or", "And", "Err", "Ne", "Eq", "Ge", "Gt", "Le", "Lt", "Merge"],
+        ("src/compiler/expression_error.rs", "ExpressionError"): ["Abort", "Return", "Error", "Fallible", "Missing"],
+    }
+    for (path, en), exp in want.items():
+        got = _enum_variants(path, en)
+        if got != exp:
+            return False, "%s enum %s changed: %s (contracts written for %s)" % (path, en, got, exp)
+    return True, "Expr(12), container::Variant(4), unary::Variant(1), Opcode(14), ExpressionError(5) as contracted"
+
+
+@scan("closure_callers")
+def closure_callers():
+    """Closure bodies are only ever run through closure::Runner (so the Runner contract covers the
+    five closure-taking stdlib functions): every `block.resolve(` in src/stdlib is the runner
+    argument of `closure::Runner::new(variables, |ctx| block.resolve(ctx))`."""
+    total, wrapped, files = 0, 0, []
+    for f in src_files("src/stdlib"):
+        s = C.read(f)
+        a = len(re.findall(r"\bblock\s*\.\s*resolve\s*\(", s))
+        b = len(re.findall(r"Runner::new\(\s*variables\s*,\s*\|ctx\|\s*block\.resolve\(ctx\)\s*\)", s))
+        total += a
+        wrapped += b
+        if a:
+            files.append(os.path.basename(f))
+        if a != b:
+            return False, "%s: %d closure block evaluations but %d wrapped in closure::Runner" % (os.path.relpath(f, C.REPO), a, b)
+    if total == 0:
+        return False, "no closure block evaluation found in src/stdlib (anchor lost)"
+    return True, "%d closure block evaluations, all through closure::Runner::new (%s)" % (total, ", ".join(sorted(files)))
